@@ -131,27 +131,48 @@ def run(rep: vk.Report):
             kinds_hist[rname] = kinds_hist.get(rname, 0) + 1
     # matrices: element-wise, row-major
     M = MatrixVariable("M", 2, 2); N = MatrixVariable("N", 2, 2); N3 = MatrixVariable("K", 2, 3)
+    Sy2 = MatrixVariable("S", 2, 2, symmetric=True); Sy3 = MatrixVariable("T", 3, 3, symmetric=True)
     mat_cases = 0
-    for sense in ["<=", ">=", "=="]:
-        for rname, right in [("int", 1), ("2-d array", np.array([[1.0, 2.0], [3.0, 4.0]])), ("MatrixVariable", N), ("MatrixExpression", N * 2),
-                             ("2-d array(mismatch)", np.ones((2, 3))), ("MatrixVariable(mismatch)", N3)]:
+    def flat(m):
+        return [m[i, j] for i in range(m.rows) for j in range(m.cols)] if hasattr(m, "rows") and not hasattr(m, "flatten") else list(m.flatten())
+    lefts = [("MatrixVariable", M), ("symmetric 2x2", Sy2), ("symmetric 3x3", Sy3), ("transpose view", N3.T), ("non-square", N3),
+             ("MatrixExpression", M * 2), ("symmetric.T", Sy3.T)]
+    for (lname, left), sense in itertools.product(lefts, ["<=", ">=", "=="]):
+        rws, cls = left.rows, left.cols
+        asym = np.array([[float(1 + 3 * i - 2 * j + (5 if i > j else 0)) for j in range(cls)] for i in range(rws)])
+        rights = [("int", 1), ("float", -0.5), ("2-d array", asym), ("2-d array(transposed values)", asym.T.copy() if rws == cls else asym * 2),
+                  ("2-d array(mismatch)", np.ones((rws, cls + 1))), ("MatrixVariable(mismatch)", MatrixVariable("Q", rws + 1, cls))]
+        if rws == cls == 2:
+            rights += [("MatrixVariable", N), ("MatrixExpression", N * 2), ("symmetric MatrixVariable", Sy2)]
+        for rname, right in rights:
             S = ser.Ser()
-            ls = ser.lst(S.expr(M[i, j]) for i in range(2) for j in range(2))
-            if isinstance(right, int):
+            try:
+                ls = ser.lst(S.expr(left[i, j]) for i in range(rws) for j in range(cls))
+            except Exception:
+                ls = ser.lst(S.expr(e) for e in left.flatten())
+            if isinstance(right, (int, float)):
                 rt = f"(OScalar {ser.q(right)})"
             elif isinstance(right, np.ndarray):
-                rt = (f"(OVector {ser.lst('(Const ' + ser.q(float(a)) + ')' for a in right.flatten())})")
+                rt = (f"(OVector {ser.lst('(Const ' + ser.q(float(a)) + ')' for a in right.flatten())})") if right.shape == (rws, cls) else "ODimMismatch"
             elif isinstance(right, MatrixVariable):
-                rt = f"(OVector {ser.lst(S.expr(right[i, j]) for i in range(right.rows) for j in range(right.cols))})"
+                rt = (f"(OVector {ser.lst(S.expr(right[i, j]) for i in range(right.rows) for j in range(right.cols))})"
+                      if (right.rows, right.cols) == (rws, cls) else "ODimMismatch")
             else:
                 rt = f"(OVector {ser.lst(S.expr(e) for e in right.flatten())})"
             try:
-                cs = apply_sense(M, sense, right)
+                cs = apply_sense(left, sense, right)
                 seen = f"(PBuilt {cons_term(S, cs)})"
             except Exception as ex:
                 seen = classify_error(ex)
-            builds.add(f"({ls}, {SENSE[sense]}, {rt}, {seen})", {"left": "MatrixVariable", "right": rname, "sense": sense, "seen": seen[:80]},
-                       kinds={"matrix", rname, sense})
+            if rt == "ODimMismatch":
+                # shape mismatch of two-dimensional operands: the model's operand is the flattening, so state the expectation directly
+                if seen != "PDim":
+                    rep.violation({"kind": "correspondence", "obligation": "matrix operands of different shapes are rejected with a dimension error",
+                                   "witness": {"left": lname, "right": rname, "sense": sense, "seen": seen[:200]}}, concrete=True)
+                mat_cases += 1
+                continue
+            builds.add(f"({ls}, {SENSE[sense]}, {rt}, {seen})", {"left": lname, "right": rname, "sense": sense, "seen": seen[:80]},
+                       kinds={"matrix", lname, rname, sense})
             mat_cases += 1
     bfails = builds.run()
     sfails = scalars.run()
@@ -166,10 +187,25 @@ def run(rep: vk.Report):
     n_num = 120 if rep.tier == "quick" else 4000
     nums, nmeta = [], []
     exact_bad = 0
-    for i in range(n_num):
-        r = random.Random(rng.random())
-        g = gen.Gen(r, profile=r.choice(["poly", "smooth"]))
-        lhs, rhs = g.expr(3), (g.expr(2) if r.random() < 0.5 else r.choice([0.5, 1, -2, 3]))
+    def sources():
+        # focused corpus with parameters first (coefficients that are Parameters, constants on either side ...), then random trees
+        for g, e in common.corpus(rng, rep.tier, 0, focus_profile="all", focus_scale=0.35, pool_kwargs={"with_matrices": False}):
+            yield g, e
+        for i in range(n_num):
+            r0 = random.Random(rng.random())
+            g = gen.Gen(r0, profile=r0.choice(["poly", "smooth", "all"]))
+            try:
+                yield g, g.expr(3)
+            except Exception:
+                continue
+
+    param_updates = 0
+    for g, lhs in sources():
+        r = g.rng
+        try:
+            rhs = (g.expr(2) if r.random() < 0.4 else r.choice([0.5, 1, -2, 3]))
+        except Exception:
+            rhs = 1
         sense = r.choice(["<=", ">=", "=="])
         c = apply_sense(lhs, sense, rhs)
         vs = sorted(c.get_variables(), key=lambda v: v.name)
@@ -177,20 +213,45 @@ def run(rep: vk.Report):
             continue
         names = [v.name for v in vs]
         P = Problem().minimize(sum((v for v in vs[1:]), vs[0]) * 1.0)
+        # the constraint under test sits among others (before, after, or alone): each dict must stay paired with ITS constraint
+        k_before = r.choice([0, 0, 1])
+        k_after = r.choice([0, 1, 2])
+        others = [vs[0] * 3 - 7 <= 100, (vs[-1] * vs[-1] + 2).eq(50), sum((v for v in vs[1:]), vs[0]) * 0.5 >= -40]
+        for o in others[:k_before]:
+            P.subject_to(o)
         P.subject_to(c)
+        for o in others[k_before:k_before + k_after]:
+            P.subject_to(o)
         with stubs.Seams(minimize_script=[lambda call: stubs.mres(x=call["x0"], fun=0.0)] * 2) as S, warnings.catch_warnings():
             warnings.simplefilter("ignore")
             try:
                 P.solve(method="trust-constr")
             except Exception:
                 continue
-        dct = P._solver_cache["scipy_constraints"][0]
+        dct = P._solver_cache["scipy_constraints"][k_before]
         V = [v.name for v in P.variables]
         Ss = ser.Ser()
         te = Ss.expr(c.expr)
-        for _ in range(2):
+        params = common.params_of(c.expr)
+        saved = {nme: pp.value for nme, pp in params.items()}
+        for rnd in range(3 if params else 2):
             pt = common.pick_point(r, names)
             xarr = np.array([pt[n] for n in V], dtype=float)
+            if rnd == 2:
+                # every Parameter re-set AFTER the wrapper built its dicts: fun and jac must both follow
+                for nme, pp in params.items():
+                    if np.ndim(pp.value) == 0:
+                        pp.set(float(r.choice([-1.5, 0.25, 2.0, 3.5])) + 0.0625 * r.randrange(8))
+                        param_updates += 1
+                if r.random() < 0.5:
+                    with stubs.Seams(minimize_script=[lambda call: stubs.mres(x=call["x0"], fun=0.0)] * 2), warnings.catch_warnings():
+                        warnings.simplefilter("ignore")
+                        try:
+                            P.solve(method="trust-constr")      # a re-solve on the same Problem
+                            dct = P._solver_cache["scipy_constraints"][k_before]
+                        except Exception:
+                            pass
+            ppts = {nme: pp.value for nme, pp in params.items() if np.ndim(pp.value) == 0}
             with np.errstate(all="ignore"):
                 try:
                     val = common.fval(c.evaluate(pt)); viol = c.violation(pt); sat = c.is_satisfied(pt, tol=1e-8)
@@ -209,10 +270,10 @@ def run(rep: vk.Report):
                                "sense": sense, "value": val, "violation": viol, "satisfied": sat, "dict_type": dct["type"], "fun": fun,
                                "witness": {"constraint": repr(c)[:400], "point": pt}}, concrete=True)
             sign = -1.0 if sense == "<=" else 1.0
-            nums.append(f"({te}, \"\", {common.pts_term(pt)}, [], [{ser.q(val)}])")
+            nums.append(f"({te}, \"\", {common.pts_term(pt)}, {common.pts_term(ppts)}, [{ser.q(val)}])")
             nmeta.append({"what": "evaluate", "constraint": repr(c)[:300], "point": pt, "value": val})
             for j, vn in enumerate(V):
-                nums.append(f"({te}, {ser.s(vn)}, {common.pts_term(pt)}, [], [{ser.q(sign * float(jac[j]))}])")
+                nums.append(f"({te}, {ser.s(vn)}, {common.pts_term(pt)}, {common.pts_term(ppts)}, [{ser.q(sign * float(jac[j]))}])")
                 nmeta.append({"what": f"jac[{vn}]", "constraint": repr(c)[:300], "point": pt, "sense": sense, "jac": float(jac[j])})
     num_checker = ("fun c => match c with (e, v, pts, ppts, obs) => "
                    "worst (map (num_check (if String.eqb v \"\" then e else grad ln2c ln10c v e) pts ppts) obs) end")
@@ -232,6 +293,7 @@ def run(rep: vk.Report):
     cov["operand_kind_histogram"] = kinds_hist
     cov["matrix_cases"] = mat_cases
     cov["numeric_probes"] = len(nums)
+    cov["parameter_updates_after_build"] = param_updates
     cov["numeric_undecided"] = len(nund)
     cov["correspondence_failures"] = len(bfails) + len(sfails) + len(nfails) + exact_bad
     cov["traces_validated_against_impl"] = len(builds.terms) + len(scalars.terms) + len(nums) - len(nund)
